@@ -93,6 +93,7 @@ class LoopInfo:
     body_falls: bool = True
     fall_cond: tuple = ()
     depth: int = 0
+    cond: tuple = ()  # path condition at loop entry
 
 
 @dataclass
@@ -652,7 +653,7 @@ class _FuncEval:
         it_term = self.expr(s.iter, st) if is_for else None
         info = LoopInfo(lid, "for" if is_for else "while", s, s.target if is_for else None, it_term, None, {}, [], [],
                         self.loop_stack[-1] if self.loop_stack else None, has_else=bool(s.orelse),
-                        depth=len(self.loop_stack))
+                        depth=len(self.loop_stack), cond=st.cond)
         self.s.loops[lid] = info
         body_env = st.env.copy()
         inits = {}
